@@ -1,5 +1,285 @@
+import NessaiVerif.Model.Encode
+import NessaiVerif.Model.EncodeLeaf
+import NessaiVerif.Gen.Encode
 import NessaiVerif.Driver.Parse
-/- stub: replaced by the owner of this area -/
+/-
+`enc` protocol (C19).  Value trees are written in prefix form, one token per node header:
+  D n (key tree)*   keys: ks:<cps> | ki:<int> | kb:0|1 | kn | kx        dict (insertion order)
+  L n tree* | T n tree*                                                 list | tuple
+  i:<int> | f:<bits> | s:<cps> | N | b:0|1                              int, float (binary64 pattern), str, None, bool
+  A <dt> <ndim> <dim>* <n> tree*      dt ∈ i f b u o                     ndarray (items in C order)
+  S <nf> (s:<cps>)* <nrows> <ncells> tree*                              structured array (row-major cells)
+  ni:<int> | nf:<k>:<bits>[:<exact>] | nb:0|1 | ns:<cps> | o:<cps>      numpy scalars, opaque object (str(obj))
+<cps> = decimal code points joined by '.', <exact> = exact-value token `<odd mantissa>e<exp2>`.
+Commands:
+  enc json <tree>                       -> ok <tree> | err=type          (what json.load returns)
+  enc kwargs <n> <tree>*n <tree>        values of the n keys save_kwargs adds, then the kwargs dict
+  enc h5 <tree>                         -> ok <h5 tree> | err=…          (read back, keys sorted, numbers by value)
+  enc results <extension> <tree>        -> json …|hdf5 … | err=runtime   (save_results after the name logic)
+  enc ext <fileExt|-> <extension|-|none> -> json|hdf5 <append 0/1> | err=runtime   (`-` = empty string)
+  enc chain                             -> the generated dispatch
+-/
 namespace NessaiVerif.Driver.Encode
-def handle (_toks : List String) : String := "bad-op"
+open NessaiVerif NessaiVerif.Parse NessaiVerif.Encode
+
+def decodeCps (s : String) : Option String :=
+  if s == "" then some "" else
+    ((s.splitOn ".").mapM (fun (t : String) => t.toNat?.map Char.ofNat)).map String.ofList
+
+def parseKey? (tok : String) : Option Key :=
+  match tok.splitOn ":" with
+  | ["ks", c] => (decodeCps c).map Key.str
+  | ["ki", i] => i.toInt?.map Key.int
+  | ["kb", b] => (parseBool? b).map Key.bool
+  | ["kn"] => some .none
+  | ["kx"] => some .bad
+  | _ => none
+
+def parseDT? : String → Option DT
+  | "i" => some .int | "f" => some .float | "b" => some .bool | "u" => some .ustr | "o" => some .obj
+  | _ => none
+
+def parseFKind? : String → Option FKind
+  | "e" => some .f16 | "f" => some .f32 | "d" => some .f64 | "g" => some .f128
+  | _ => none
+
+def pNats : Nat → List String → Option (List Nat × List String)
+  | 0, r => some ([], r)
+  | n + 1, t :: r => do
+    let a ← t.toNat?
+    let (as, r') ← pNats n r
+    some (a :: as, r')
+  | _, [] => none
+
+def pNames : Nat → List String → Option (List String × List String)
+  | 0, r => some ([], r)
+  | n + 1, t :: r =>
+    match t.splitOn ":" with
+    | ["s", c] => do
+      let a ← decodeCps c
+      let (as, r') ← pNames n r
+      some (a :: as, r')
+    | _ => none
+  | _, [] => none
+
+mutual
+def pTree : Nat → List String → Option (Tree × List String)
+  | 0, _ => none
+  | _, [] => none
+  | fuel + 1, tok :: rest =>
+    match tok.splitOn ":" with
+    | ["N"] => some (.none, rest)
+    | ["i", x] => x.toInt?.map (fun i => (.int i, rest))
+    | ["f", x] => x.toNat?.map (fun b => (.float b, rest))
+    | ["s", c] => (decodeCps c).map (fun s => (.str s, rest))
+    | ["b", x] => (parseBool? x).map (fun b => (.bool b, rest))
+    | ["ni", x] => x.toInt?.map (fun i => (.npInt i, rest))
+    | ["nf", k, x] => do
+      let k ← parseFKind? k
+      let b ← x.toNat?
+      some (.npFloat k b none, rest)
+    | ["nf", k, x, e] => do
+      let k ← parseFKind? k
+      let b ← x.toNat?
+      some (.npFloat k b (some e), rest)
+    | ["nb", x] => (parseBool? x).map (fun b => (.npBool b, rest))
+    | ["ns", c] => (decodeCps c).map (fun s => (.npStr s, rest))
+    | ["o", c] => (decodeCps c).map (fun s => (.opaque s, rest))
+    | ["L"] => match rest with
+      | n :: rest => do
+        let n ← n.toNat?
+        let (xs, r) ← pList fuel n rest
+        some (.list xs, r)
+      | [] => none
+    | ["T"] => match rest with
+      | n :: rest => do
+        let n ← n.toNat?
+        let (xs, r) ← pList fuel n rest
+        some (.tuple xs, r)
+      | [] => none
+    | ["D"] => match rest with
+      | n :: rest => do
+        let n ← n.toNat?
+        let (kvs, r) ← pKvs fuel n rest
+        some (.dict kvs, r)
+      | [] => none
+    | ["A"] => match rest with
+      | dt :: nd :: rest => do
+        let dt ← parseDT? dt
+        let nd ← nd.toNat?
+        let (shape, r) ← pNats nd rest
+        match r with
+        | n :: r => do
+          let n ← n.toNat?
+          let (xs, r') ← pList fuel n r
+          some (.ndarray dt shape xs, r')
+        | [] => none
+      | _ => none
+    | ["S"] => match rest with
+      | nf :: rest => do
+        let nf ← nf.toNat?
+        let (names, r) ← pNames nf rest
+        match r with
+        | nr :: nc :: r => do
+          let nr ← nr.toNat?
+          let nc ← nc.toNat?
+          let (xs, r') ← pList fuel nc r
+          some (.structured names nr xs, r')
+        | _ => none
+      | [] => none
+    | _ => none
+def pList : Nat → Nat → List String → Option (List Tree × List String)
+  | 0, _, _ => none
+  | _ + 1, 0, r => some ([], r)
+  | fuel + 1, n + 1, r => do
+    let (x, r1) ← pTree fuel r
+    let (xs, r2) ← pList fuel n r1
+    some (x :: xs, r2)
+def pKvs : Nat → Nat → List String → Option (List (Key × Tree) × List String)
+  | 0, _, _ => none
+  | _ + 1, 0, r => some ([], r)
+  | _ + 1, _ + 1, [] => none
+  | fuel + 1, n + 1, k :: r => do
+    let k ← parseKey? k
+    let (x, r1) ← pTree fuel r
+    let (xs, r2) ← pKvs fuel n r1
+    some ((k, x) :: xs, r2)
+end
+
+def parseTree? (toks : List String) : Option (Tree × List String) := pTree (toks.length + 2) toks
+
+def keyTok : Key → String
+  | .str s => "ks:" ++ cps s
+  | .int i => "ki:" ++ toString i
+  | .bool b => "kb:" ++ showBool b
+  | .none => "kn"
+  | .bad => "kx"
+
+mutual
+/-- tokens of a JSON-level tree (same grammar as the input) -/
+def renderJ : Tree → List String
+  | .dict kvs => ["D", toString kvs.length] ++ renderJKvs kvs
+  | .list xs => ["L", toString xs.length] ++ renderJList xs
+  | .tuple xs => ["T", toString xs.length] ++ renderJList xs
+  | .int i => ["i:" ++ toString i]
+  | .float b => ["f:" ++ toString b]
+  | .str s => ["s:" ++ cps s]
+  | .none => ["N"]
+  | .bool b => ["b:" ++ showBool b]
+  | _ => ["?"]
+def renderJList : List Tree → List String
+  | [] => []
+  | x :: xs => renderJ x ++ renderJList xs
+def renderJKvs : List (Key × Tree) → List String
+  | [] => []
+  | (k, v) :: rest => keyTok k :: (renderJ v ++ renderJKvs rest)
+end
+
+def showErr : Err → String
+  | .type => "err=type" | .value => "err=value" | .os => "err=os" | .runtime => "err=runtime"
+
+def insertSorted (e : String × H5) : Kids → Kids
+  | [] => [e]
+  | x :: xs => if e.1 < x.1 then e :: x :: xs else x :: insertSorted e xs
+
+mutual
+/-- tokens of the container as the reader sees it: groups → dicts with sorted names -/
+def renderH (sent : String) : H5 → Except Err (List String)
+  | .ds v => h5LeafToks sent v
+  | .grp kids => do
+    let body ← renderHKids sent kids
+    pure (["D", toString kids.length] ++ body)
+def renderHKids (sent : String) : List (String × H5) → Except Err (List String)
+  | [] => .ok []
+  | (k, h) :: rest => do
+    let a ← renderH sent h
+    let b ← renderHKids sent rest
+    pure (("ks:" ++ cps k) :: a ++ b)
+end
+
+mutual
+def sortH : H5 → H5
+  | .ds v => .ds v
+  | .grp kids => .grp (sortKids kids)
+def sortKids : List (String × H5) → List (String × H5)
+  | [] => []
+  | (k, h) :: rest => insertSorted (k, sortH h) (sortKids rest)
+end
+
+def runJson (t : Tree) : String :=
+  match jsonEncode Gen.Encode.jsonChain Gen.Encode.jsonFallback t with
+  | .ok j => "ok " ++ " ".intercalate (renderJ j)
+  | .error e => showErr e
+
+def runH5 (kvs : List (Key × Tree)) : String :=
+  let sent := Gen.Encode.h5Sentinel
+  -- internal consistency of the two flatteners (the proved one and the error-ordered one)
+  let consistent := match flattenKvs sent kvs with
+    | .ok es => (flattenP sent kvs).2.isNone && (flattenP sent kvs).1.map (·.1) == es.map (·.1)
+    | .error _ => (flattenP sent kvs).2.isSome
+  if !consistent then "model-inconsistent" else
+  match h5WriteFull sent kvs with
+  | .error e => showErr e
+  | .ok f =>
+    match renderH sent (sortH (.grp f)) with
+    | .ok toks => "ok " ++ " ".intercalate toks
+    | .error e => showErr e
+
+def showTest : TypeTest → String
+  | .npInteger => "np.integer" | .npFloating => "np.floating" | .npNumber => "np.number"
+  | .npGeneric => "np.generic" | .npBool => "np.bool_" | .ndarray => "np.ndarray"
+def showAction : Action → String
+  | .toInt => "int" | .toFloat => "float" | .toBool => "bool" | .tolist => "tolist" | .toStr => "str" | .item => "item"
+
+def showChain : String :=
+  "chain=" ++ showList (fun (e : TypeTest × Action) => showTest e.1 ++ "->" ++ showAction e.2) Gen.Encode.jsonChain ++
+  " fallback=" ++ (match Gen.Encode.jsonFallback with | .strIfNotJsonable => "str-if-not-jsonable" | .raise => "raise") ++
+  " sentinel=" ++ Gen.Encode.h5Sentinel ++
+  " ext=" ++ showList (fun (e : String × Format) => e.1 ++ "->" ++ (match e.2 with | .json => "json" | .hdf5 => "hdf5"))
+    Gen.Encode.extTable ++
+  " posteriorAsDict=" ++ showBool Gen.Encode.jsonPosteriorAsDict ++
+  " extra=" ++ showList id Gen.Encode.kwargsExtraKeys
+
+def handle (toks : List String) : String :=
+  match toks with
+  | "json" :: rest =>
+    match parseTree? rest with
+    | some (t, []) => runJson t
+    | _ => "bad-op"
+  | "kwargs" :: n :: rest =>
+    match n.toNat? with
+    | none => "bad-op"
+    | some n =>
+      match pList (rest.length + 2) n rest with
+      | some (vals, r) =>
+        match parseTree? r with
+        | some (.dict kvs, []) =>
+          match saveKwargs Gen.Encode.jsonChain Gen.Encode.jsonFallback (Gen.Encode.kwargsExtraKeys.zip vals) kvs with
+          | .ok j => "ok " ++ " ".intercalate (renderJ j)
+          | .error e => showErr e
+        | _ => "bad-op"
+      | none => "bad-op"
+  | "h5" :: rest =>
+    match parseTree? rest with
+    | some (.dict kvs, []) => runH5 kvs
+    | _ => "bad-op"
+  | "results" :: ext :: rest =>
+    match parseTree? rest with
+    | some (.dict kvs, []) =>
+      match formatOf Gen.Encode.extTable ext with
+      | some .json =>
+        "json " ++ runJson (.dict (if Gen.Encode.jsonPosteriorAsDict then posteriorToDict kvs else kvs))
+      | some .hdf5 => "hdf5 " ++ runH5 kvs
+      | none => "err=runtime"
+    | _ => "bad-op"
+  | ["ext", fe, e] =>
+    let fe := if fe == "-" then "" else fe
+    let e := if e == "none" then none else if e == "-" then some "" else some e
+    match saveTarget Gen.Encode.extTable fe e with
+    | .ok (.json, app) => "json " ++ showBool app
+    | .ok (.hdf5, app) => "hdf5 " ++ showBool app
+    | .error er => showErr er
+  | ["chain"] => showChain
+  | _ => "bad-op"
+
 end NessaiVerif.Driver.Encode
